@@ -203,6 +203,9 @@ func build(pl Plan) (*built, error) {
 			if est := established[sk]; est != "" && est != names(r.Full) {
 				want = true
 			}
+			if refmux.PatternValidity(strings.Join(r.Full[prefixLen[r.At]:], ".")) != refmux.Valid || dup(r.Full) {
+				want = true // an invalid pattern is refused for listeners as for handlers
+			}
 			msg := catch(func() { muxes[r.At].AddListener(rel, func(*res.Event) { *b.hits = append(*b.hits, id) }) })
 			b.regPanic = append(b.regPanic, msg != "")
 			b.wantPanic = append(b.wantPanic, want)
@@ -781,6 +784,9 @@ func genPlan() *rapid.Generator[Plan] {
 			var params []string
 			for k := 0; k < n; k++ {
 				switch c := rapid.IntRange(0, 11).Draw(t, "kind"); {
+				case c <= 5 && rapid.IntRange(0, 19).Draw(t, "badtok") == 0:
+					// a token no valid pattern can have: the registration must be refused
+					toks = append(toks, rapid.SampledFrom([]string{"*foo", "foo*", "a?", "räv", "a>", "$", "a b", ">x"}).Draw(t, "bad"))
 				case c <= 5:
 					toks = append(toks, rapid.SampledFrom(litToks).Draw(t, "lit"))
 				case c <= 8:
@@ -1049,6 +1055,20 @@ func TestRegressRootPatternTrailingSeparator(t *testing.T) {
 		msg, _ = checkLookup(b, pl, "svc.")
 	}
 	evid.ReportKnown(t, prop, "C06-root-handler-matches-trailing-separator", msg != "", msg, map[string]interface{}{"plan": pl, "name": "svc."})
+	ev.CountDistinct(1, 1)
+}
+
+func TestRegressListenerOnInvalidPattern(t *testing.T) {
+	// a wildcard character that is not alone in its token: no valid pattern, for a listener
+	// as little as for a handler
+	msg := ""
+	for _, p := range []string{"*foo", "model.*foo", "model.>x"} {
+		if catch(func() { res.NewMux("svc").AddListener(p, func(*res.Event) {}) }) == "" {
+			msg = fmt.Sprintf("AddListener(%q) was accepted although the pattern is invalid (Handle refuses it)", p)
+			break
+		}
+	}
+	evid.ReportKnown(t, prop, "C06-listener-on-invalid-pattern", msg != "", msg, map[string]interface{}{"patterns": []string{"*foo", "model.*foo", "model.>x"}})
 	ev.CountDistinct(1, 1)
 }
 
